@@ -244,7 +244,8 @@ def build_result(case, rot=0):
         from valjean.gavroche.diagnostics.metadata import TestMetadata
         dmd = OrderedDict()
         for s, row in enumerate(case['values']):
-            dmd[f'sample{s}'] = {f'key{k}': v for k, v in enumerate(row) if v is not None}
+            name = case['names'][s] if case.get('names') else f'sample{s}'
+            dmd[name] = {f'key{k}': v for k, v in enumerate(row) if v is not None}
         return TestMetadata(dmd, name='md').evaluate()
     if kind in ('tasks', 'tests'):
         from valjean.cosette.task import TaskStatus
@@ -515,7 +516,7 @@ def bin_rows(kind, result):
     return rows, failing
 
 
-def item_rows(kind, res, vname, verdict):
+def item_rows(kind, res, vname, verdict, samples=None):
     '''tables with one row per compared dataset / status / label tuple / metadata key: the rows
     (stripped text, highlighted?) the first table of a non-silent rendering must read back as, every
     flag computed from that row's own verdict, independently of table_repr.  None: no such table.'''
@@ -555,8 +556,12 @@ def item_rows(kind, res, vname, verdict):
         if vname == 'INTERMEDIATE' and not bad:
             return None
         shown = bad if vname == 'INTERMEDIATE' else keys
+        # one column per sample: the cell under the header of sample S in the row of key K holds S's
+        # value for K, highlighted iff S's comparison for K failed.  `samples` = the sample headers
+        # read back from the written table (default: the order the samples were given in)
+        order = list(test.dmd) if samples is None else samples
         return [[(key, False)] + [(str(test.all_md[key][nam]).strip(), not res.dict_res[key][nam])
-                                  for nam in test.dmd] for key in shown]
+                                  for nam in order] for key in shown]
     return None
 
 
@@ -777,6 +782,18 @@ def run_case(case):
             # ---- tables with one row per dataset / status / label tuple / key: a row (a cell) is
             #      highlighted exactly when that row's (cell's) own verdict is false
             want = item_rows(kind, fresh(), vname, verdict)
+            if want is not None and kind == 'meta' and vname not in ('SUMMARY', 'DEFAULT'):
+                # the column <-> sample association is the one the written table announces in its headers
+                heads = (doc_tables(doc) or [([[]], [])])[0][0]
+                heads = heads[0] if heads else []
+                names = list(fresh().test.dmd)
+                if heads[:1] != ['key'] or sorted(heads[1:]) != sorted(names):
+                    rec.fail(f'{where}: headers {heads} are not "key" and the samples {names}', 'meta-headers')
+                    want = None
+                else:
+                    if heads[1:] != names:
+                        rec.count('meta_columns_not_in_given_order')
+                    want = item_rows(kind, fresh(), vname, verdict, samples=heads[1:])
             if want is not None:
                 got = doc_tables(doc)
                 if not got:
@@ -789,7 +806,8 @@ def run_case(case):
                         rec.fail(f'{where}: highlighted rows {hl_rows} but the rows whose own verdict is '
                                  f'false are {want_hl} (rows read back: {body})', 'item-rows-highlight')
                     elif body != want:
-                        rec.fail(f'{where}: rows read back {body} are not the items with their own '
+                        under = f' under the headers {doc_tables(doc)[0][0][0]}' if kind == 'meta' else ''
+                        rec.fail(f'{where}: rows read back {body}{under} are not the items with their own '
                                  f'values and flags {want}', 'item-rows-cells')
     rec.renders = f'({abstract}, {clist(renders)})'
     if detail is not None and case.get('ops'):
@@ -1330,8 +1348,11 @@ def gen_data_case(rng, kind, big=False):
     return case
 
 
+SAMPLE_NAMES = ['zeta', 'alpha', 'Mid', 'beta2', 'run10', 'run9', 'T4', 'apollo']
+
+
 def gen_meta_case(rng):
-    nkeys, nsamp = rng.randint(1, 4), rng.randint(1, 3)
+    nkeys, nsamp = rng.randint(1, 4), rng.choice([1, 2, 3, 3, 4])
     mode = rng.random()
     values = []
     for s in range(nsamp):
@@ -1345,7 +1366,17 @@ def gen_meta_case(rng):
         values.append(row)
     if all(v is None for row in values for v in row):
         values[0][0] = 'v0'
-    return {'kind': 'meta', 'values': values}
+    case = {'kind': 'meta', 'values': values}
+    if rng.random() < 0.75:
+        # sample names in any insertion order (the reference of the comparison is the alphabetically
+        # first one, wherever it was given)
+        case['names'] = rng.sample(SAMPLE_NAMES, nsamp)
+        if mode >= 0.3 and nsamp > 1:
+            # the sample that agrees with itself everywhere is not necessarily the reference
+            rng.shuffle(case['values'])
+            if all(v is None for v in case['values'][0]):
+                case['values'][0][0] = 'v0'
+    return case
 
 
 def gen_stats_case(rng, kind):
@@ -1484,6 +1515,12 @@ CORPUS = [
                  ['i1', [-5, 100]], ['b1', [True, False]], ['c16', [[1 / 3, 2.0], [0.0, -1 / 7]]], ['list', [1, 2.5]]],
      'mask': [[False, False], [True, False], [False, True], [False, False], [False, True], [True, False],
               [False, False], [False, True]]},
+    # metadata: samples given in non-alphabetical order, keys failing for some samples only
+    {'kind': 'meta', 'names': ['zeta', 'alpha', 'Mid'],
+     'values': [['v0', 'v1', 'v2'], ['v0', 'w1', 'v2'], ['v0', 'v1', 'x2']]},
+    {'kind': 'meta', 'names': ['run9', 'run10', 'apollo', 'T4'],
+     'values': [['v0', 'v1'], ['v0', 'v1'], ['w0', 'v1'], ['v0', None]]},
+    {'kind': 'meta', 'names': ['b', 'a'], 'values': [['v0', 2.5], ['v0', 3]]},
     # integer quantities of 7-18 digits that differ in the low digits only
     {'kind': 'equal', 'shape': [3], 'bins': ['e'], 'fail': [[0, 1, 0]], 'dtype': 'i8', 'base': 12345678,
      'ops': [['get', [[1, None]]], ['join', [0]]]},
